@@ -13,7 +13,11 @@ def run_native(recipe, release=True):
 def confirm(ses, v):
     """True: reproduced natively; False: did not reproduce; None: no recipe"""
     if not v.get('replay'): return None
-    out = run_native(v['replay'])
+    r = v['replay']
+    if 'steps' not in r:
+        if r.get('kind') not in SCRIPTS: return None
+        r = SCRIPTS[r['kind']](r); v['replay'] = r
+    out = run_native(r)
     ses.native_runs = getattr(ses, 'native_runs', 0) + 1
     v['native'] = out
     if 'violated' in out: return bool(out['violated'])
@@ -27,3 +31,50 @@ def replay_file(path):
     if out.get('violated'):
         print('VIOLATION property=%s replay=%s' % (d['property'], path)); return 1
     return 0
+
+
+# ----------------------------------------------------------------------------- recipes -> scripts
+def _txt(hexs, fallback_char='a'):
+    """model bytes for a string input -> a real string of the same byte length where possible"""
+    if hexs is None: return ''
+    b = bytes.fromhex(hexs) if isinstance(hexs, str) else b''
+    try: return b.decode('utf-8')
+    except UnicodeDecodeError: return fallback_char * len(b)
+
+
+def _fix(hexs, n, fill='00'):
+    h = hexs if isinstance(hexs, str) else ''
+    h = (h + fill * n)[:2 * n]
+    return h
+
+
+def key_steps(proto, model, name='k'):
+    """steps defining $<name>_sk / $<name>_pk with real key material (model values seed the real generators)"""
+    if proto.endswith('local'):
+        return [{'op': 'bytes', 'hex': _fix(model.get('key'), 32), 'out': name + '_sk'}, {'op': 'bytes', 'hex': _fix(model.get('key'), 32), 'out': name + '_pk'}]
+    return [{'op': 'keys', 'proto': proto, 'seed': _fix(model.get('seed') or model.get('key'), 48, '07'), 'out': name}]
+
+
+def build_step(proto, model, fkind, akind, out='T', key='$k_sk'):
+    nl = 24 if (proto == 'v2.local' and isinstance(model.get('nonce'), str) and len(model['nonce']) == 48) else 32
+    return {'op': 'build_core', 'proto': proto, 'key': key, 'nonce': _fix(model.get('nonce'), nl), 'message': _txt(model.get('message')),
+            'footer': None if fkind == 'none' else _txt(model.get('footer')), 'assertion': None if akind == 'none' else _txt(model.get('assertion')), 'out': out}
+
+
+def script_roundtrip(r):
+    m = r['model']; proto = r['proto']
+    msg = _txt(m.get('message'))
+    steps = key_steps(proto, m) + [build_step(proto, m, r['fkind'], r['akind'])]
+    steps.append({'op': 'parse_core', 'proto': proto, 'token': '$T', 'key': '$k_pk',
+                  'footer': None if r['fkind'] == 'none' else _txt(m.get('footer')), 'assertion': None if r['akind'] == 'none' else _txt(m.get('assertion')), 'out': 'R'})
+    return {'steps': steps, 'violated_if': [[{'var': 'T', 'is': 'not_ok'}], [{'var': 'R', 'is': 'not_ok_eq', 'value': msg}]]}
+
+
+def script_v3_public_key_ctor(r):
+    pk = r['model'].get('public_key') or '02'
+    tag = int(pk[:2], 16) if len(pk) >= 2 else 2
+    return {'steps': [{'op': 'keys', 'proto': 'v3.public', 'seed': '07' * 48, 'want_tag': tag if tag in (2, 3) else 3, 'out': 'k'},
+                      {'op': 'v3_public_key_ctor', 'key': '$k_pk', 'out': 'R'}], 'violated_if': [[{'var': 'R', 'is': 'not_ok'}]]}
+
+
+SCRIPTS = {'roundtrip': script_roundtrip, 'v3_public_key_ctor': script_v3_public_key_ctor}
